@@ -68,7 +68,11 @@ def leaf_specs(rng, T, n, sf, base=0):
     for i in range(n):
         r = rng.random()
         prefix = b''
-        if r < .3: body = T.Script.from_src('true').bytes
+        if r < .07:
+            # the leaf calls a function a script run *before* the proof defined (run_auth_scripts copies definitions from tape to tape)
+            h_ = rng.choice([0, 3, 100]); prefix = T.Script.from_src('def %d { %s }' % (h_, rng.choice(['true', 'false', 'push d1 push d1 equal']))).bytes
+            body = T.Script.from_src('call d%d' % h_).bytes
+        elif r < .3: body = T.Script.from_src('true').bytes
         elif r < .4: body = T.Script.from_src('false').bytes
         elif r < .5: body = T.Script.from_src(rng.choice(['push d1 push d1 equal', 'push d1 push d2 less', 'push x0102 size push d2 equal verify pop0 true'])).bytes
         elif r < .58: body = T.Script.from_src(rng.choice(['pop0 pop0 pop0 pop0 true', 'false verify true', 'push d1 push d0 div_ints'])).bytes
@@ -379,6 +383,25 @@ def run(ctx: Ctx) -> Result:
         if (fo['status'] == 'OK') != (fv['status'] == 'OK') or (fo['status'] == 'OK' and fo.get('stack') != fv.get('stack')):
             B.viol('a leaf gives a different result through the tree than on its own under the same embedder flags',
                    {'cfg': fcfg.line(), 'cache': vmrun.cache_str(cache, False), 'leaf': code.hex(), 'script': script.hex()}, own[:100], via[:100])
+    # ---------------------------------------------------------------- every committed branch can be run under a call budget that just fits its depth
+    for it in range(ctx.n(10, 60)):
+        d = [3, 5, 8, 12, 23, 2, 16, 7, 23, 23][it % 10]
+        codes_ = [marker(80 + j) + T.Script.from_src(rng.choice(['true', 'true', 'false', 'push d1 push d1 equal'])).bytes for j in range(d + 1)]
+        out = try_build(T.make_merklized_script_prioritized, [T.Script.from_bytes(c) for c in codes_])
+        if isinstance(out, str): B.viol('make_merklized_script_prioritized raised', {'leaves': [c.hex() for c in codes_]}, '(lock, scripts)', out); continue
+        lock, unlocks = out
+        for li in sorted({0, d // 2, d - 1, d}):
+            u = unlocks[li].bytes
+            depth = (len(vmrun.auth_impl(B.cfg(), sf, [u, lock.bytes]).split(' ')) and len(vmrun.LAST.get('tapes', [])) - 2)       # scripts evaluated below the lock
+            for extra in (0, 1, 5):
+                tcfg = vmrun.Cfg(now=B.now, call_limit=max(1, depth + extra))
+                res.note_case(('tight-budget', d, li, extra, tuple(codes_)))
+                own = vmrun.auth_impl(tcfg, sf, [codes_[li]])
+                via = vmrun.auth_impl(tcfg, sf, [u, lock.bytes])
+                if len(B.records) < ctx.n(2500, 12000) + 400: B.records.append((tcfg, dict(sf), [u, lock.bytes], via))
+                if own.split(' ')[0] != via.split(' ')[0]:
+                    B.viol(f'a leaf {depth} evaluations below the lock, callstack_limit = {depth + extra}: verdict differs from the leaf script\'s own verdict',
+                           {'cfg': tcfg.line(), 'leaf': li, 'scripts': [u.hex(), lock.bytes.hex()], 'cache': vmrun.cache_str(sf, False)}, own[:60], via[:80])
     # ---------------------------------------------------------------- builders
     maxn = 24
     sizes = list(range(1, maxn + 1)) if ctx.tier == 'thorough' else [1, 2, 3, 4, 5, 7, 8, 9, 16, 17, 24]
